@@ -398,10 +398,19 @@ def all_pairs(check: Check, repo: Repo, rule: str = "ALL-PAIRS") -> None:
         "combinations(fields, 2). 'Can be merged' is not transitive (fields of disjoint object parents are "
         "never in conflict with a third), so comparing only against the first field misses conflicts",
     )
-    fn = repo.func(MOD, "collect_conflicts_within")
-    calls = [c for c in walk_body(fn) if isinstance(c, ast.Call) and last_attr(c) == "find_conflict"]
+    for fname, callee in (("collect_conflicts_within", "find_conflict"),
+                          ("find_conflicts_within_selection_set", "collect_conflicts_between_fragments")):
+        _all_pairs_site(check, repo, rule, fname, callee)
+
+
+def _all_pairs_site(check: Check, repo: Repo, rule: str, fname: str, callee: str) -> None:
+    """One site of ALL-PAIRS: `callee` is applied to every unordered pair of one list inside `fname` (for the second
+    site: the fragments spread into one selection set - step (C) of the algorithm - which pairwise() / zip(xs, xs[1:])
+    would only compare with their neighbours)."""
+    fn = repo.func(MOD, fname)
+    calls = [c for c in walk_body(fn) if isinstance(c, ast.Call) and last_attr(c) == callee]
     if not calls:
-        raise AnalysisError("collect_conflicts_within: find_conflict call not found")
+        raise AnalysisError(f"{fname}: {callee} call not found")
     for c in calls:
         loops = [a for a in ancestors(c) if isinstance(a, ast.For)]
         ok, why = False, "find_conflict is not inside a pair enumeration"
@@ -430,8 +439,8 @@ def all_pairs(check: Check, repo: Repo, rule: str = "ALL-PAIRS") -> None:
             if not ok:
                 why = f"loops `{unparse(outer.iter)}` / `{unparse(inner.iter)}` do not enumerate every pair of one list"
         elif not ok and len(loops) == 1:
-            why = f"a single loop over `{unparse(loops[0].iter)}` compares one fixed field with the others, not all pairs"
-        check.ob(rule, c, "collect_conflicts_within: find_conflict over all pairs", ok, why)
+            why = f"a single loop over `{unparse(loops[0].iter)}` does not enumerate all pairs (neighbours only, or one fixed element against the others)"
+        check.ob(rule, c, f"{fname}: {callee} over all pairs", ok, why)
 
 
 # -- a cache keyed by AST nodes is an identity map ---------------------------------------------------------
@@ -602,3 +611,51 @@ def node_value_compare(check: Check, repo: Repo, mods: list, rule: str = "NODE-B
                          f"operands of type {node_typed[0][:70]} are compared structurally; use identity or compare the keys that matter")
     check.ob(rule, mods[0].tree, f"{n} ==/!= comparisons in {len(mods)} modules", True, f"{n - bad} without an AST node operand", nontrivial=False)
     return n
+
+
+def shared_map_reads(check: Check, repo: Repo, rule: str = "SHARED-MAP-READS") -> None:
+    from rules.language_rules import norm_facts
+
+    check.rule(
+        rule,
+        "the field maps of the merge rule (NodeAndDefCollection: response name -> fields) are built once per selection "
+        "set, memoised and handed to every comparison - for a recursive fragment the map a caller is iterating can be the "
+        "one a callee looks into. They are therefore plain dicts (built from a dict display, never a defaultdict) and a "
+        "parameter of that type is read with .get() / `in` / .items(); a bare subscript read `m[k]` is accepted only "
+        "after the function itself stored `m[k]` or under the must-fact that k is present. A bare read either raises "
+        "KeyError or - on an auto-vivifying map - inserts an entry into a map that is being iterated "
+        "(RuntimeError: dictionary changed size during iteration, on a valid recursive document)",
+    )
+    mod = repo.mod(MOD)
+    n = 0
+    for fn in mod.functions():
+        if isinstance(fn, ast.Lambda):
+            continue
+        maps = {a.arg for a in fn.args.args if a.annotation is not None and "NodeAndDefCollection" in unparse(a.annotation)}
+        maps |= {s.target.id for s in walk_body(fn) if isinstance(s, ast.AnnAssign) and isinstance(s.target, ast.Name)
+                 and "NodeAndDefCollection" in unparse(s.annotation)}
+        for s in walk_body(fn):
+            if isinstance(s, ast.AnnAssign) and isinstance(s.target, ast.Name) and "NodeAndDefCollection" in unparse(s.annotation) and s.value is not None:
+                n += 1
+                ok = isinstance(s.value, ast.Dict) or (isinstance(s.value, ast.Call) and call_name(s.value) == "dict")
+                check.ob(rule, s, f"{qualname_of(s)}: `{unparse(s)[:60]}`", ok,
+                         "a plain dict" if ok else f"built as `{unparse(s.value)[:40]}`: lookups on the memoised map would insert entries")
+        if not maps:
+            continue
+        flow = None
+        for x in walk_body(fn):
+            if not (isinstance(x, ast.Subscript) and isinstance(x.ctx, ast.Load) and isinstance(x.value, ast.Name) and x.value.id in maps):
+                continue
+            n += 1
+            m, k = x.value.id, unparse(x.slice)
+            stored = any(isinstance(t, ast.Subscript) and isinstance(t.ctx, ast.Store) and unparse(t.value) == m and unparse(t.slice) == k and t.lineno <= x.lineno
+                         for t in walk_body(fn))
+            if flow is None:
+                flow = FactFlow(CFG(fn))
+            facts = norm_facts(flow.facts_at(x))
+            present = (f"{k} in {m}", True) in facts or (f"{m}.get({k})", True) in facts or (f"{k} not in {m}", False) in facts
+            check.ob(rule, x, f"{qualname_of(x)}: read `{m}[{k}]`", stored or present,
+                     ("stored by this function before the read" if stored else "key known to be present") if stored or present else
+                     f"bare subscript read of a shared field map: use {m}.get({k})")
+    if n < 2:
+        raise AnalysisError("SHARED-MAP-READS: field maps not found")
